@@ -189,6 +189,9 @@ func (h *DefaultHandler) serve(msg []byte) (err error) {
 // Run is a function that is used for listening and processing messages.
 func (h *DefaultHandler) Run() (err error) {
 	h.eventHandlers.Trigger(utils.EventConnect)
+	// Once the processing loop is over nothing drains the outgoing channel any more:
+	// senders must be released instead of waiting for it.
+	defer h.cancel()
 	defer h.processRemainingErrors()
 
 	for {
